@@ -564,12 +564,16 @@ struct AeDoc<T> {
 }
 const AE_POSITIONS: usize = 13;
 const AE_VALUES: [&str; 4] = ["text", "\u{4e16}\u{754c}", "\"q r\"", "3.5"];
-const AE_GRID: usize = AE_POSITIONS * 4 * 3 * 3;
+/// positions 13..16 (an alias inside an element of a merge *sequence* that is written in place)
+/// were added later: their codes follow the first grid, so that saved cases keep their meaning
+const AE_MORE_POSITIONS: usize = 3;
+const AE_FIRST_GRID: usize = AE_POSITIONS * 4 * 3 * 3;
+const AE_GRID: usize = AE_FIRST_GRID + AE_MORE_POSITIONS * 4 * 3 * 3;
 fn check_alias_error_sites(code: usize) -> Result<(), String> {
-    let pos = code % AE_POSITIONS;
-    let val = AE_VALUES[(code / AE_POSITIONS) % 4];
-    let lead = (code / (AE_POSITIONS * 4)) % 3;
-    let pad = ["", " ", "   "][(code / (AE_POSITIONS * 12)) % 3];
+    let (pos, code, np) = if code < AE_FIRST_GRID { (code % AE_POSITIONS, code, AE_POSITIONS) } else { (AE_POSITIONS + (code - AE_FIRST_GRID) % AE_MORE_POSITIONS, code - AE_FIRST_GRID, AE_MORE_POSITIONS) };
+    let val = AE_VALUES[(code / np) % 4];
+    let lead = (code / (np * 4)) % 3;
+    let pad = ["", " ", "   "][(code / (np * 12)) % 3];
     // the byte sequence wants an out-of-range integer rather than text to be "of the wrong type"
     let val = if pos == 5 && val == "3.5" { "300" } else { val };
     let mut text = String::new();
@@ -591,6 +595,11 @@ fn check_alias_error_sites(code: usize) -> Result<(), String> {
         11 => format!("n:\n  <<: {{a:{pad} *a}}\n"),
         // no alias at all: a node of the wrong type nested in a merged mapping written in place
         12 => format!("n:\n  <<: {{v: [1,{pad} {val}]}}\n"),
+        // an alias inside an element of a merge sequence, the element written in place (alone,
+        // after another element, in a block sequence)
+        13 => format!("n:\n  <<: [{{a:{pad} *a}}]\n"),
+        14 => format!("n:\n  <<: [{{z: 1}}, {{a:{pad} *a}}]\n"),
+        15 => format!("n:\n  <<:\n    - {{a:{pad} *a}}\n"),
         _ => format!("n:\n  -{pad} *a\n"),
     };
     text.push_str(&use_lines);
@@ -613,7 +622,7 @@ fn check_alias_error_sites(code: usize) -> Result<(), String> {
         1 => run::<Vec<i32>>(&text),
         2 | 3 | 4 => run::<AeE>(&text),
         5 => run::<AeBytes>(&text),
-        6 | 7 | 11 => run::<AeInner>(&text),
+        6 | 7 | 11 | 13 | 14 | 15 => run::<AeInner>(&text),
         12 => run::<AeNest>(&text),
         8 => run::<std::collections::BTreeMap<String, i32>>(&text),
         9 => run::<Option<i32>>(&text),
